@@ -405,3 +405,48 @@ def _rerun_job(j, rp):
 
 
 REGISTRY["replay:rerun_job"] = _rerun_job
+
+
+@job("w3")
+def job_w3(j):
+    """Run the repository's own tests under the passive generic monitors (in a scratch copy of the tests directory)."""
+    import json
+    import os
+    import shutil
+    import subprocess
+    import sys
+    import tempfile
+
+    col = Collector()
+    repo = [p for p in sys.path if os.path.isdir(os.path.join(p, "tawazi"))][0]
+    tests = os.path.join(repo, "tests") if os.path.isdir(os.path.join(repo, "tests")) else "/repo/tests"
+    tmp = tempfile.mkdtemp(prefix="twzw3_")
+    try:
+        shutil.copytree(tests, os.path.join(tmp, "tests"))
+        out = os.path.join(tmp, "w3.json")
+        env = dict(os.environ, TWZ_W3_OUT=out)
+        cmd = [sys.executable, "-m", "pytest", "-q", "-p", "no:cacheprovider", "-p", "twzmon.pytest_plugin", "-o", "addopts=", "--timeout=600",
+               "-x", "--deselect", "tests/test_resource.py::test_main_thread_resource_computation_time", "tests"]
+        if j.get("select"):
+            cmd += ["-k", j["select"]]
+        p = subprocess.run(cmd, cwd=tmp, env=env, capture_output=True, text=True, timeout=j.get("timeout", 900))  # noqa: S603
+        try:
+            res = json.load(open(out))
+        except Exception:  # noqa: BLE001
+            col.inconclusive.append("repository tests under the monitors produced no report (rc=%s): %s" % (p.returncode, (p.stdout or "")[-600:]))
+            return col.result()
+        col.evaluations += res["tests"]
+        col.counters.update(res["stats"])
+        col.counters["w3_tests"] += res["tests"]
+        col.counters["w3_tests_failed"] += res["outcomes"].get("failed", 0)
+        for x in res["violations"]:
+            col.violation(x["prop"], "w3:" + x["mech"], dict(x["witness"], test=x["test"]), {"kind": "rerun_job", "job": dict(j)})
+        if res["outcomes"].get("failed", 0):
+            col.soft_inconclusive.append("%d repository tests fail under the monitors" % res["outcomes"]["failed"])
+        for k in range(min(res["tests"], 400)):
+            col.hashes.add("w3test%04d" % k)
+        col.sample({"workload": "repository test-suite under passive generic monitors", "tests": res["tests"], "outcomes": res["outcomes"],
+                    "executions_monitored": res["stats"].get("generic_executions", 0)})
+    finally:
+        shutil.rmtree(tmp, ignore_errors=True)
+    return col.result()
